@@ -17,6 +17,7 @@ from ast import (
     arguments,
 )
 from collections import OrderedDict
+from copy import deepcopy
 from functools import partial
 from itertools import chain
 from textwrap import indent
@@ -370,7 +371,7 @@ def class_(
             internal_body = list(
                 map(
                     ast.fix_missing_locations,
-                    map(RewriteName(param_names).visit, internal_body),
+                    map(RewriteName(param_names).visit, map(deepcopy, internal_body)),
                 )
             )
         elif (returns or {"return_type": None}).get("return_type") is not None:
